@@ -896,9 +896,9 @@ Proof.
       + lia.
       + intros e [<-|He]; [lia|now apply H2].
       + destruct H3 as [H3|(e & He & H3)].
-        * unfold f in H3 at 2. destruct (m <? parse_ts (fst x)) eqn:E.
-          -- right. exists x. split; [now left|]. now rewrite H3.
-          -- left. exact H3.
+        * destruct (m <? parse_ts (fst x)) eqn:E.
+          -- right. exists x. split; [now left|]. rewrite H3. unfold f. now rewrite E.
+          -- left. rewrite H3. unfold f. now rewrite E.
         * right. exists e. split; [now right|exact H3]. }
   destruct (G es 0) as (H1 & H2 & H3). split; [exact H2|].
   intros Hne. destruct H3 as [H3|(e & He & H3)].
